@@ -48,6 +48,19 @@ RUNTIME_PLAN += [
     ]},
 ]
 
+# the line splitter behind PrettyParseError (C11): optional group, fails locally
+RUNTIME_PLAN += [
+    {'file': 'runtime/src/error.rs', 'items': [
+        {'kind': 'type', 'match': r"^struct IndexedStringLine<'a>$", 'group': 'pretty'},
+        {'kind': 'type', 'match': r"^struct IndexedStringLineIterator<'a>$", 'group': 'pretty'},
+        {'kind': 'impl', 'match': r"^impl<'a> IndexedStringLineIterator<'a>$", 'group': 'pretty', 'expect': ['new']},
+        # X6: `impl Iterator for ..` emitted as an inherent impl (Verus takes no user Iterator impl with a contract on `next`)
+        {'kind': 'impl', 'match': r"^impl<'a> Iterator for IndexedStringLineIterator<'a>$", 'group': 'pretty', 'as': 'IndexedStringLineIterator',
+         'header_rewrite': ("impl<'a> Iterator for IndexedStringLineIterator<'a>", "impl<'a> IndexedStringLineIterator<'a>"), 'rule': 'X6',
+         'drop_assoc_types': True, 'sig_subst': [('Option<Self::Item>', "Option<IndexedStringLine<'a>>")], 'expect': ['next']},
+    ]},
+]
+
 CODEGEN_PLAN = [
     {'file': 'codegen/src/common.rs', 'items': [
         {'kind': 'type', 'match': r'^pub enum Arity$'},
